@@ -62,6 +62,8 @@ def _case(draw, max_nodes, max_depth):
         op = draw(st.sampled_from(BINOPS + UNOPS + ['cols', 'cols']))
         if parent >= 1 and draw(st.integers(0, 3)) == 0:
             op = nodes[parent - 1][1]        # repeat the parent's operator (x + a + b, x * a * b)
+        if op == 'cols' and width[parent] == 0:
+            op = draw(st.sampled_from(BINOPS + UNOPS))   # one channel was selected: 1-D from here
         if op == 'cols':
             if draw(st.integers(0, 4)) == 0:
                 mask = draw(st.lists(st.booleans(), min_size=width[parent], max_size=width[parent]))
@@ -70,7 +72,7 @@ def _case(draw, max_nodes, max_depth):
                 arg = {'t': 'mask', 'v': mask}       # boolean channel mask
             else:
                 arg = draw(S.col_selector(width[parent]).filter(lambda c: c is not None))
-            w = len(np.arange(width[parent])[_cols(arg)])
+            w = 0 if arg['t'] == 'int' else len(np.arange(width[parent])[_cols(arg)])
         elif op in UNOPS:
             arg, w = None, width[parent]
         else:
@@ -87,14 +89,34 @@ def _case(draw, max_nodes, max_depth):
     reads = []
     for _ in range(draw(st.integers(1, 8))):
         k = draw(st.integers(0, nnodes))
-        c = draw(st.none() | S.col_selector(width[k]))
+        c = draw(st.none() | S.col_selector(width[k])) if width[k] else None
         reads.append([k, draw(S.row_expr(n, bounds, allow_list=allow_list)), c])
     return {'lay': lay, 'nodes': nodes, 'reads': reads}
 
 
+def _large_cases(th):
+    # blocks longer than any internal batch one would pick (2**16, 2**18, 2**20 rows)
+    sizes = [65536 + 24464, 2 ** 18 + 5] + ([2 ** 20 + 3, 3 * 2 ** 16 + 100] if th else [])
+    for i, n in enumerate(sizes):
+        for backend in ('flat', 'array'):
+            parts = [n // 3, n - n // 3] if backend == 'flat' else [n]
+            lay = {'n': n, 'nch': 3, 'dtype': ['int16', 'float32'][i % 2], 'backend': backend,
+                   'parts': parts, 'offset': 0, 'chunk': n // 4 + 1, 'salt': i}
+            nodes = [[0, 'mul', 2], [1, 'cols', {'t': 'list', 'v': [2, 0]}], [2, 'add', 0.5],
+                     [0, 'neg', None]]
+            reads = [[3, {'t': 'slice', 'a': None, 'b': None}, None],
+                     [1, {'t': 'slice', 'a': 1, 'b': n - 1}, {'t': 'rev'}],
+                     [4, {'t': 'list', 'v': list(range(0, n, 5)), 'as': 'int64'}, None],
+                     [2, {'t': 'slice', 'a': -(2 ** 16 + 9), 'b': None}, None]]
+            yield {'lay': lay, 'nodes': nodes, 'reads': reads}
+
+
 def drivers(tier):
     th = tier == 'thorough'
-    return [dict(kind='hyp', name='programs',
+    return [dict(kind='enum', name='large', exhaustive=False,
+                 bound='requests of more than 2**16 / 2**18 (thorough: 2**20) rows',
+                 cases=lambda: _large_cases(th)),
+            dict(kind='hyp', name='programs',
                  strategy=_case(7, 7) if th else _case(5, 4),
                  examples=300000 if th else 20000)]
 
@@ -184,6 +206,8 @@ def classify(case, info):
     nodes = case['nodes']
     labels = ['backend:' + lay['backend'], 'nodes:%d' % len(nodes)]
     nt = False
+    if lay['n'] > 65536:
+        labels.append('more-than-2**16-rows')
     if any(op.startswith('r') and op != 'rpow' or op == 'rpow' for _, op, _ in nodes):
         labels.append('reflected-op')
         nt = True
@@ -210,4 +234,6 @@ def classify(case, info):
         labels.append('numpy-scalar-operand')
     if any(isinstance(a, dict) and a.get('t') == 'mask' for _, _, a in nodes):
         labels.append('boolean-channel-mask')
+    if any(isinstance(a, dict) and a.get('t') == 'int' for _, _, a in nodes):
+        labels.append('single-channel-selection')
     return sorted(set(labels)), nt
